@@ -36,12 +36,16 @@ var tmpls = []vlib.Tmpl{
 	vlib.T("plain/l1/cfg/pres"), vlib.T("plain/l1/cfg/mode"),
 	// (appended) nodes of the augmenting module (prefix ve, module name verif-ext) directly below a node of the main module
 	vlib.T("plain/extll"), vlib.T("plain/extleaf"), vlib.T("plain/extc/e2"),
+	// (appended) a list keyed by an identityref
+	vlib.T("plain/il/v"), vlib.T("plain/il/w"),
 }
 var uni = &vlib.Universe{Name: "sync", Tmpls: tmpls}
 var palette = []string{"eth1", "eth10", "eth1/1"}
 
 // palettes: the default one and key values of which two pairs read the same once joined ([x.y, x] / [x, y.x])
-var palettes = [][]string{{"eth1", "eth10", "eth1/1"}, {"a", "a b", "b a"}, {"a", "a/b", "b/a"}, {"a", "a_b", "b_a"}}
+var palettes = [][]string{{"eth1", "eth10", "eth1/1"}, {"a", "a b", "b a"}, {"a", "a/b", "b/a"}, {"a", "a_b", "b_a"},
+	// values with ':' (IPv6 / MAC addresses, interface names): not module prefixes
+	{"x:y", "fe80::1", "y"}}
 
 type UpdSel struct {
 	Leaf vlib.LeafSel `json:"leaf"`
@@ -84,6 +88,7 @@ type DevCase struct {
 	Chunk   int         `json:"chunk,omitempty"`
 	NS      bool        `json:"ns,omitempty"` // netconf include-ns
 	Prefix  bool        `json:"prefix,omitempty"` // gNMI: notifications carry a prefix and relative paths
+	QualKeys bool       `json:"qual_keys,omitempty"` // gNMI: identityref key values in paths are spelled module:name
 	Initial []UpdSel    `json:"initial"`
 	Rounds  []DevChange `json:"rounds"`
 }
@@ -95,6 +100,7 @@ func genDev(t *rapid.T) *DevCase {
 	d.Chunk = rapid.SampledFrom([]int{0, 0, 1, 2, 5, -1, -1}).Draw(t, "dev-chunk")
 	d.NS = rapid.Bool().Draw(t, "dev-ns")
 	d.Prefix = rapid.Bool().Draw(t, "dev-prefix")
+	d.QualKeys = rapid.Bool().Draw(t, "dev-qualified-identity-keys")
 	sel := func(label string, min, max int) []UpdSel {
 		var r []UpdSel
 		for _, ls := range vlib.GenLeafSels(t, uni, min, max, label) {
@@ -200,8 +206,8 @@ var prop = vlib.Prop[*Case]{
 		} else {
 			c.Script = genMsgs(t)
 		}
-		c.Pal = rapid.SampledFrom([]int{0, 0, 0, 0, 0, 1, 2, 3}).Draw(t, "palette")
-		if c.Pal > 0 && c.Dev == nil && rapid.Bool().Draw(t, "colliding-entries") {
+		c.Pal = rapid.SampledFrom([]int{0, 0, 0, 0, 0, 1, 2, 3, 4, 4}).Draw(t, "palette")
+		if c.Pal > 0 && c.Pal < 4 && c.Dev == nil && rapid.Bool().Draw(t, "colliding-entries") {
 			// one notification carrying both entries of the two-key list (template 15 = plain/l2a/v)
 			m := Msg{Kind: "notif", Updates: []UpdSel{
 				{Leaf: vlib.LeafSel{T: 15, K: []int{1, 0}, V: rapid.IntRange(0, 2).Draw(t, "coll-v1")}, Form: "typed"},
@@ -209,7 +215,7 @@ var prop = vlib.Prop[*Case]{
 			at := rapid.IntRange(0, len(c.Script)).Draw(t, "coll-at")
 			c.Script = append(c.Script[:at:at], append([]Msg{m}, c.Script[at:]...)...)
 		}
-		if c.Pal > 0 && c.Dev != nil && rapid.Bool().Draw(t, "colliding-entries-dev") {
+		if c.Pal > 0 && c.Pal < 4 && c.Dev != nil && rapid.Bool().Draw(t, "colliding-entries-dev") {
 			c.Dev.Initial = append(c.Dev.Initial,
 				UpdSel{Leaf: vlib.LeafSel{T: 15, K: []int{1, 0}, V: 0}, Form: "typed"}, UpdSel{Leaf: vlib.LeafSel{T: 15, K: []int{0, 2}, V: 1}, Form: "typed"})
 		}
